@@ -236,6 +236,9 @@ func (c *Client) ReadKey(k []byte) *ReadProblem {
 			return nil
 		}
 		if !p.del && present && bytes.Equal(p.v, got) {
+			if len(poss) > 1 && p.by >= 0 {
+				c.noteApplied(p.by)
+			}
 			return nil
 		}
 	}
@@ -253,6 +256,16 @@ func (c *Client) ReadKey(k []byte) *ReadProblem {
 	return rp
 }
 
+// noteApplied records that a write whose call had failed was observed applied (its unique value was read).
+func (c *Client) noteApplied(id int) {
+	for _, b := range c.H.Batches() {
+		if b.ID == id && b.Failed && !b.SeenApplied && int(c.ID) == b.Client {
+			b.SeenApplied = true
+			c.Stats["failed_writes_observed_applied"]++
+		}
+	}
+}
+
 func short(b []byte) string {
 	if len(b) > 24 {
 		return fmt.Sprintf("%x…(%d)", b[:24], len(b))
@@ -264,6 +277,9 @@ func short(b []byte) string {
 // explicitly discarded => absent.
 func APIStatus(b *hist.Batch) hist.Status {
 	switch {
+	case b.SeenApplied && !b.Discard:
+		// reported as failed, but observed applied while running: one fate only
+		return hist.Required
 	case b.Failed || b.Ack < 0:
 		// "a write that returned an error is either wholly applied or wholly absent"
 		return hist.Optional
